@@ -14,6 +14,12 @@ use wit_parser::{Resolve, Type};
 
 pub const PTR: usize = std::mem::size_of::<usize>();
 
+/// Known generator defect (recorded in known_findings.json): a fixed-length list
+/// whose elements own heap data, inside an import parameter that is lowered to
+/// memory, has its elements dropped before the import is called.  One exact
+/// signature, whatever the element type / nesting / world.
+pub const SIG_FIXED_LIST_DANGLING: &str = "rust-e2e:import:param:fixed-list-with-heap-elements-lowered-to-memory:dangling-elements";
+
 /// What the host expects from the import call that the running driver makes.
 pub struct Pending {
     pub link: String,
@@ -261,7 +267,12 @@ impl<'a> Host<'a> {
                     (Ok(a), Ok(b)) => plan::diff_class(&self.abi, ty, &a, &b),
                     _ => plan::shape_class(&self.abi, ty, 0),
                 };
-                let sig = format!("rust-e2e:{}:{}:{}", f.dir.name(), what, plan::focus(&class));
+                let focused = plan::focus(&class);
+                let sig = if f.dir == Dir::Import && what == "param" && focused.starts_with("flh<") {
+                    SIG_FIXED_LIST_DANGLING.to_string()
+                } else {
+                    format!("rust-e2e:{}:{}:{}", f.dir.name(), what, focused)
+                };
                 let msg = format!(
                     "{} {} of `{}` (index {}, type shape {}) arrived changed: expected {} observed {}{} [opts {}]",
                     f.dir.name(),
@@ -285,7 +296,11 @@ impl<'a> Host<'a> {
         // a lift failure cannot be localised: if the signature has a fixed-length list with heap elements, name that
         let fclass = plan::focus(&self.heap_class(f));
         let class = if fclass.starts_with("flh<") { fclass } else { plan::focus(&class) };
-        let sig = format!("rust-e2e:{}:{}:{}", f.dir.name(), what, class);
+        let sig = if f.dir == Dir::Import && what == "param" && class.starts_with("flh<") {
+            SIG_FIXED_LIST_DANGLING.to_string()
+        } else {
+            format!("rust-e2e:{}:{}:{}", f.dir.name(), what, class)
+        };
         let m = format!("{} `{}`: {} [opts {}]", f.dir.name(), f.symbol(), msg, self.tables.opts);
         let rp = self.replay(f, json!({"what": what, "error": msg}));
         self.rep.violation(&sig, &m, rp);
@@ -735,6 +750,8 @@ fn run_values(host: &mut Host, sets: usize) {
         }
         usable.push(f);
     }
+    let flh = usable.iter().filter(|f| f.dir == Dir::Import && f.params.iter().any(|t| plan::shape_class(&host.abi, t, 0).contains("flh<"))).count();
+    host.rep.count_n("import_functions_with_fixed_list_of_heap_elements", flh as u64);
     if usable.is_empty() {
         host.rep.inconclusive("world has no callable handle-free sync function");
         return;
